@@ -2,7 +2,8 @@
 //! with default features off = no_std) and by vrun (default build); the transcripts must agree.
 //!
 //! input lines:  A <hex utf8 text> | V <hex prog> | D <hex prog>
-//!               X <vm> <d> <e> <pmod8> <mmod8> <budget> <hex prog> <hex pkt> <hex mbuff>
+//!               X <vm> <d> <e> <pmod8> <mmod8> <budget> <hex prog> <hex pkt> <hex mbuff> <jit|nojit>
+//!                 [c:<default>:<pc>=<size>,... | -] [h:<id>=<pool>,... | -]
 //! output lines: one per input line, flushed immediately.
 
 use std::io::{BufRead, Write};
@@ -68,6 +69,49 @@ fn exec_memory() -> &'static mut [u8] {
     }
 }
 
+// the helper pool of harness/vrun/src/runner.rs (same arities, same mixing function)
+const POOL_ARITY: [u8; 8] = [5, 5, 3, 2, 1, 0, 5, 4];
+
+fn pool_mix(idx: u8, a: &[u64; 5]) -> u64 {
+    let mut h: u64 = 0x9e37_79b9_7f4a_7c15 ^ ((idx as u64 + 1) << 56);
+    for k in 0..POOL_ARITY[idx as usize] as usize {
+        h = (h ^ a[k]).wrapping_mul(0x1000_0000_01b3).rotate_left(23) ^ (k as u64 + 1);
+    }
+    h
+}
+
+macro_rules! pool_helper {
+    ($name:ident, $idx:expr) => {
+        fn $name(a: u64, b: u64, c: u64, d: u64, e: u64) -> u64 {
+            pool_mix($idx, &[a, b, c, d, e])
+        }
+    };
+}
+pool_helper!(h0, 0);
+pool_helper!(h1, 1);
+pool_helper!(h2, 2);
+pool_helper!(h3, 3);
+pool_helper!(h4, 4);
+pool_helper!(h5, 5);
+pool_helper!(h6, 6);
+pool_helper!(h7, 7);
+const POOL: [fn(u64, u64, u64, u64, u64) -> u64; 8] = [h0, h1, h2, h3, h4, h5, h6, h7];
+
+type CalcData = (Vec<(usize, u16)>, u16);
+
+fn calc_fn(_prog: &[u8], pc: usize, data: &mut dyn std::any::Any) -> u16 {
+    let inner: &dyn std::any::Any = match data.downcast_ref::<Box<dyn std::any::Any>>() {
+        Some(b) => b.as_ref(),
+        None => data,
+    };
+    let (table, default) = inner.downcast_ref::<CalcData>().expect("calculator data");
+    table.iter().find(|(p, _)| *p == pc).map(|(_, s)| *s).unwrap_or(*default)
+}
+
+fn parse_pairs(s: &str) -> Vec<(u64, u64)> {
+    s.split(',').filter_map(|kv| kv.split_once('=')).filter_map(|(a, b)| Some((a.parse().ok()?, b.parse().ok()?))).collect()
+}
+
 /// interpreter and JIT results of one program: "i:<ok v pkt|err|panic> j:<ok v pkt|cerr|panic>"
 fn exec_line(f: &[&str]) -> String {
     let vm = f[1];
@@ -80,6 +124,11 @@ fn exec_line(f: &[&str]) -> String {
     let pkt = unhex(f[8]);
     let mbuff = unhex(f[9]);
     let with_jit = f.get(10).map(|s| *s == "jit").unwrap_or(false);
+    let calc: Option<CalcData> = f.get(11).and_then(|x| x.strip_prefix("c:")).and_then(|spec| {
+        let (d, t) = spec.split_once(':')?;
+        Some((parse_pairs(t).into_iter().map(|(pc, s)| (pc as usize, s as u16)).collect(), d.parse().ok()?))
+    });
+    let helpers: Vec<(u32, u8)> = f.get(12).and_then(|x| x.strip_prefix("h:")).map(|spec| parse_pairs(spec).into_iter().map(|(id, p)| (id as u32, p as u8)).collect()).unwrap_or_default();
     let mut out = String::new();
     for engine in ["i", "j"] {
         if engine == "j" && !with_jit {
@@ -103,6 +152,12 @@ fn exec_line(f: &[&str]) -> String {
             // Err(()) at the outer level = compile error
             macro_rules! go {
                 ($vmv:expr, $interp:expr, $jit:expr) => {{
+                    for (id, p) in &helpers {
+                        $vmv.register_helper(*id, POOL[*p as usize % 8]).unwrap();
+                    }
+                    if let Some(c) = &calc {
+                        $vmv.set_stack_usage_calculator(calc_fn, Box::new(c.clone())).unwrap();
+                    }
                     if engine == "i" {
                         Ok($interp.map_err(|_| ()))
                     } else {
